@@ -146,6 +146,7 @@ func init() {
 											uri += "?" + q
 										}
 										kase := map[string]interface{}{"location": li, "upstream_ae": uae, "method": m, "uri": uri, "cond": cd.name, "state": state, "body": len(body)}
+										c.Sample(kase)
 										viol := func(sig, msg string) {
 											c.Violation("transparency", sig, fmt.Sprintf("%s %s [%s, key %s, location %d, upstream AE %q]: %s", m, uri, cd.name, state, li, uae, msg), nil, kase, nil)
 										}
